@@ -302,7 +302,7 @@ def interpret(calls, results):
        anomalies: [(class, index, text)] call patterns whose outcome the property judges (repeat finalize...)
        final_ok: the last top-level call is FIN and returned o"""
     registered, urls = set(), set()
-    out = dict(accepted_unrepresentable=[], clouds=[], blobs=[], images=[], anomalies=[], final_ok=False,
+    out = dict(accepted_unrepresentable=[], rejected_acceptable=[], clouds=[], blobs=[], images=[], anomalies=[], final_ok=False,
                fin_count=0, writes_after_fin=False)
     cur_pc = cur_img = None
     pc_finalized = img_finalized = 0
@@ -353,6 +353,10 @@ def interpret(calls, results):
                 if out["fin_count"]:
                     out["writes_after_fin"] = True
                     out["accepted_unrepresentable"].append((i, "add_pointcloud was accepted after finalize"))
+            elif r.startswith("e") and not out["fin_count"] and not proto_rule_violations(c[2], registered):
+                # the converse (C10_accepts_step): a prototype that follows every documented rule, with the
+                # capacity margin, offered to a writer that is not finalized, must be accepted
+                out["rejected_acceptable"].append((i, "prototype %s follows every rule (names compared in full: namespace and name) but add_pointcloud returned %s" % (proto_tok(c[2])[:120], r[:60])))
         elif k == "PT" and cur_pc is not None:
             if ok:
                 if not point_ok(cur_pc.proto, c[1]):
@@ -744,6 +748,8 @@ def direct_check(calls, o):
     info = interpret(calls, res)
     for i, why in info["accepted_unrepresentable"]:
         bad.append(("accepted-unrepresentable", "call %d (%s) returned Ok: %s" % (i, call_tok(calls[i])[:60], why)))
+    for i, why in info["rejected_acceptable"]:
+        bad.append(("rejected-acceptable", "call %d: %s" % (i, why)))
     if not info["final_ok"]:
         return bad
     head, pcs, ims, bls = parse_view(view)
